@@ -199,6 +199,19 @@ def _insn_token(dialect: str, what: str, target: Optional[str] = None, addend: i
         if what == "call":
             attrs = ("PLT",) if plt else ()
             return Tok(tid, "call", "call %s%s" % (st, "@PLT" if plt else ""), (Insn("call" + q, "5", "e800000000"),), SymOp(1, 4, target, addend, attrs, x86_field="imm"))
+        if what in ("icallgot", "ijmpgot", "osymgot"):
+            # transfers / loads through the GOT: an explicit relocation variant on a memory operand
+            kind = {"icallgot": "icall", "ijmpgot": "ijmp", "osymgot": "ord"}[what]
+            if dialect == "ia32":
+                text = {"icallgot": "call *%s@GOT(%%ebx)", "ijmpgot": "jmp *%s@GOT(%%ebx)", "osymgot": "movl %s@GOT(%%ebx), %%eax"}[what] % st
+                ins = {"icallgot": Insn("calll", "*(%ebx)", "ff9300000000"), "ijmpgot": Insn("jmpl", "*(%ebx)", "ffa300000000"), "osymgot": Insn("movl", "(%ebx), %eax", "8b8300000000")}[what]
+                return Tok(tid, kind, text, (ins,), SymOp(2, 4, target, addend, ("GOT",), x86_field="disp"))
+            if att:
+                text = {"icallgot": "call *%s@GOTPCREL(%%rip)", "ijmpgot": "jmp *%s@GOTPCREL(%%rip)", "osymgot": "movq %s@GOTPCREL(%%rip), %%rax"}[what] % st
+            else:
+                text = {"icallgot": "call qword ptr [rip + %s@GOTPCREL]", "ijmpgot": "jmp qword ptr [rip + %s@GOTPCREL]", "osymgot": "mov rax, qword ptr [rip + %s@GOTPCREL]"}[what] % st
+            ins = {"icallgot": Insn("callq", "*(%rip)", "ff1500000000"), "ijmpgot": Insn("jmpq", "*(%rip)", "ff2500000000"), "osymgot": Insn("movq", "(%rip), %rax", "488b0500000000")}[what]
+            return Tok(tid, kind, text, (ins,), SymOp(2 if what != "osymgot" else 3, 4, target, addend, ("GOT", "PCREL"), x86_field="disp"))
         if what == "ret":
             return Tok(tid, "ret", "ret", (Insn("ret" + q, "", "c3"),))
         if what == "ijmp":
@@ -280,7 +293,7 @@ def make_token(dialect: str, spec: str, tag: int = 7) -> Tok:
 
     if head in ("ord", "nop", "ret", "ijmp", "icall"):
         t = _insn_token(dialect, head, tag=tag)
-    elif head in ("osym", "jmp", "jmpb", "jcc", "call"):
+    elif head in ("osym", "jmp", "jmpb", "jcc", "call", "icallgot", "ijmpgot", "osymgot"):
         plt = arg.endswith("@PLT")
         name, add = sym_arg(arg[:-4] if plt else arg)
         t = _insn_token(dialect, head, name, add, plt=plt)
@@ -346,7 +359,7 @@ def validate(dialect: str) -> List[str]:
     errs = []
     d = DIALECTS[dialect]
     specs = ["nop", "ret", "ijmp", "icall"] + ["ord"] + [
-        "%s:%s" % (k, "mcode+4" if k in ("osym",) else "mcode") for k in ("osym", "jmp", "jmpb", "jcc", "call")
+        "%s:%s" % (k, "mcode+4" if k in ("osym",) else "mcode") for k in ("osym", "jmp", "jmpb", "jcc", "call", "icallgot", "ijmpgot", "osymgot")
     ] + ["call:ext@PLT"]
     for spec in specs:
         for tag in (range(1, 10) if spec == "ord" else (7,)):
